@@ -140,7 +140,7 @@ Flagsets == SUBSET States \ {{}}
 Next == \/ \E w \in Spaces, a \in Acts : ~Blocks(K, w, a) /\ K' = Act(K, w, a)
         \/ \E f \in Flagsets, a \in Acts : Len(K.chan) + Len(Matching(K, f)) <= ChanCap /\ K' = Bulk(K, f, a)
         \/ ~K.run /\ K' = StartK(K)
-        \/ K.run /\ K.plt.pc # "popped" /\ K' = StopK(K)
+        \/ K.run /\ K.plt.pc # "popped" /\ (K' = StopK(K) \/ K' = [StopK(K) EXCEPT !.chan = <<>>])
         \/ CanRecv(K) /\ K' = Recv(K)
         \/ \E w \in Spaces, m \in BOOLEAN : CanPop(K, w, m) /\ K' = Pop(K, w, m)
         \/ CanStep1(K) /\ K' = Step1(K)
